@@ -22,6 +22,9 @@ type c27cfg struct {
 	dedicated bool // the callback is installed with DedicatedClient.SetOnInvalidations and the client is released afterwards
 	events    []string
 	mode      string // optin | bcast
+	// concurrent: the next holder is another thread that is already waiting in Dedicated() for the only pooled
+	// connection while the first holder releases it; it installs its own callback, turns tracking on and reads k3
+	concurrent bool
 }
 
 func c27pushLog(s *simredis.Session) []string {
@@ -52,6 +55,7 @@ func c27body(c c27cfg) func(x *vsched.Exec) {
 		e := vwNew(func(o *ClientOption, srv *simredis.Server, n *simnet.Net) {
 			srv.Do("SET", "k1", "a")
 			srv.Do("SET", "k2", "b")
+			srv.Do("SET", "k3", "c")
 			o.BlockingPoolSize = 1
 			if !c.dedicated {
 				o.OnInvalidations = record
@@ -89,6 +93,9 @@ func c27body(c c27cfg) func(x *vsched.Exec) {
 				afterRelease = append(afterRelease, dc.Do(ctx, b.Echo().Message("late").Build()).Error())
 				afterRelease = append(afterRelease, dc.DoMulti(ctx, b.Echo().Message("late2").Build())[0].Error())
 				afterRelease = append(afterRelease, dc.Receive(ctx, b.Subscribe().Channel("x").Build(), func(PubSubMessage) {}))
+				if c.concurrent {
+					return
+				}
 				// the next holder gets the same pooled connection
 				e.client.Dedicated(func(d2 DedicatedClient) error {
 					return d2.Do(ctx, b.Echo().Message("second-holder").Build()).Error()
@@ -100,6 +107,30 @@ func c27body(c c27cfg) func(x *vsched.Exec) {
 			}
 			warmed = true
 		})
+		var cb2 []string
+		secondDone := false
+		if c.concurrent {
+			vsched.GoNamed("second", func() {
+				vsched.Point("wait-warm", func() bool { return warmed })
+				e.client.Dedicated(func(d2 DedicatedClient) error {
+					b := d2.B()
+					d2.SetOnInvalidations(func(m []RedisMessage) {
+						for _, k := range m {
+							ks, _ := k.ToString()
+							cb2 = append(cb2, ks)
+						}
+					})
+					d2.Do(ctx, b.Echo().Message("second-holder").Build())
+					d2.Do(ctx, b.Arbitrary("CLIENT", "TRACKING", "ON", "OPTIN").Build())
+					d2.Do(ctx, b.ClientCaching().Yes().Build())
+					d2.Do(ctx, b.Get().Key("k3").Build())
+					e.srv.Do("SET", "k3", "changed")
+					d2.Do(ctx, b.Echo().Message("second-end").Build()) // the push precedes this reply on the wire
+					return nil
+				})
+				secondDone = true
+			})
+		}
 		vsched.GoNamed("writer", func() {
 			vsched.Point("wait-warm", func() bool { return warmed })
 			for _, ev := range c.events {
@@ -139,6 +170,16 @@ func c27body(c c27cfg) func(x *vsched.Exec) {
 			return
 		}
 		want := c27pushLog(sess)
+		if c.concurrent {
+			// pushes for k3 belong to the next holder's callback (checked separately)
+			var w2 []string
+			for _, p := range want {
+				if p != "k3" {
+					w2 = append(w2, p)
+				}
+			}
+			want = w2
+		}
 		got := cb
 		x.Outcome = fmt.Sprintf("callbacks=%v pushes=%v", got, want)
 		// callbacks = pushes in order; at connection loss exactly one extra nil
@@ -182,12 +223,15 @@ func c27body(c c27cfg) func(x *vsched.Exec) {
 			off, second := -1, -1
 			for i, a := range sess.Executed {
 				j := strings.ToUpper(strings.Join(a, " "))
-				if j == "CLIENT TRACKING OFF" {
+				if j == "CLIENT TRACKING OFF" && off < 0 { // the first holder's (the next holder's release sends another one)
 					off = i
 				}
 				if len(a) == 2 && a[1] == "second-holder" {
 					second = i
 				}
+			}
+			if c.concurrent && secondDone && strings.Join(cb2, ",") != "k3" {
+				x.Fail("the next holder's invalidation callback missed an invalidation of a key it tracks", "the next holder turned tracking on, read k3 and k3 was changed; its callback got %v; session log %v", cb2, sess.Executed)
 			}
 			if second < 0 {
 				x.Fail("the next holder did not reuse the pooled connection", "session log %v", sess.Executed)
@@ -200,7 +244,7 @@ func c27body(c c27cfg) func(x *vsched.Exec) {
 
 func TestVerif_C27(t *testing.T) {
 	vrun.Main(t, "C27", func(r *vrun.Run) {
-		r.Rule = "a real client whose connection tracks two keys (OnInvalidations option, or a dedicated client with SetOnInvalidations that is released and reused afterwards) x every out-of-band event sequence of length <=2 (thorough <=3) over {SET k1, SET k2, MSET k1 k2, FLUSHALL, connection drop}, opt-in and broadcast tracking; all schedules within the preemption/delay bound; oracle: callback argument log = the server's invalidation push log of that session in wire order (+ exactly one nil at connection loss), CLIENT TRACKING OFF precedes the next holder's first command"
+		r.Rule = "a real client whose connection tracks two keys (OnInvalidations option, or a dedicated client with SetOnInvalidations that is released and reused afterwards) x every out-of-band event sequence of length <=2 (thorough <=3) over {SET k1, SET k2, MSET k1 k2, FLUSHALL, connection drop}, opt-in and broadcast tracking; all schedules within the preemption/delay bound; oracle: callback argument log = the server's invalidation push log of that session in wire order (+ exactly one nil at connection loss), CLIENT TRACKING OFF precedes the next holder's first command (the next holder being the same thread, or another thread already blocked on the exhausted pool that turns tracking on again and must see its own invalidation)"
 		evs := []string{"set1", "set2", "mset", "flush", "drop"}
 		var seqs [][]string
 		maxLen := vrun.Pick(r, 2, 3)
@@ -230,6 +274,9 @@ func TestVerif_C27(t *testing.T) {
 					cfgs = append(cfgs, c27cfg{name: fmt.Sprintf("ded=%v/%s/%s", ded, mode, strings.Join(sq, ",")), dedicated: ded, events: sq, mode: mode})
 				}
 			}
+		}
+		for _, sq := range [][]string{{"set1"}, {"flush"}, {"set1", "set2"}} {
+			cfgs = append(cfgs, c27cfg{name: "ded=true/optin/concurrent-next-holder/" + strings.Join(sq, ","), dedicated: true, events: sq, mode: "optin", concurrent: true})
 		}
 		for ci, c := range cfgs {
 			if !r.Mine(ci) {
